@@ -135,12 +135,17 @@ FAULTS = {
 }
 
 
-def fault_program(fault_stmt, position):
-    """Faulty flow f (own loop) with the statement at `position`; two witness flows in their own loops."""
+def fault_program(fault_stmt, position, kid=False):
+    """Faulty flow f (own loop) with the statement at `position`; two witness flows in their own loops.
+    kid: f first starts a child flow that waits for the same events as f does (it goes down with f)."""
     stmts = ["match E1()", "send F1()", "match E2()", "send F2()", "match E3()"]
     stmts.insert(position, fault_stmt)
+    if kid:
+        stmts.insert(0, "start kid")
     body = "\n".join("  " + s for s in stmts)
     return ('@loop("lp")\nflow probe\n  while True\n    match ColangError()\n    send WErr()\n\n'
+            # (the child only waits: a `send` in f's interaction loop would compete with f's own statements)
+            'flow kid\n  match E2()\n  match E1()\n  match E3()\n  match E2()\n\n'
             '@loop("lf")\nflow f\n%s\n\n'
             '@loop("lw1")\nflow w1\n  while True\n    match E1()\n    send W1a()\n    match E2()\n    send W1b()\n\n'
             '@loop("lw2")\nflow w2\n  while True\n    when E2()\n      send W2x()\n    or when E3()\n      send W2y()\n\n'
@@ -187,10 +192,11 @@ def _fault_worker(job):
     signal.signal(signal.SIGALRM, _alarm)
     out = []
     for (name, stmt, pos) in job:
+        kid = name.endswith("+kid")
         events = [{"type": "E1"}, {"type": "E2"}, {"type": "E3"}, {"type": "E1"}, {"type": "E2"}]
         res = {}
         for variant, s in (("fault", stmt), ("abort", "abort")):
-            src = fault_program(s, pos)
+            src = fault_program(s, pos, kid)
             try:
                 _count["n"] = 0
                 signal.setitimer(signal.ITIMER_REAL, 60, 0.5)
@@ -211,6 +217,42 @@ def _fault_worker(job):
     return out
 
 
+# programs that keep answering their own events: process_events feeds sent events back in, only its budget ends the call
+SELF_FEEDING = [
+    "flow main\n  match E1()\n  while True\n    send Ping()\n    match Ping()\n",
+    "flow a\n  while True\n    match Pong()\n    send Ping()\n\nflow b\n  while True\n    match Ping()\n    send Pong()\n\nflow main\n  start a\n  start b\n  match E1()\n  send Ping()\n  match Never()\n",
+    "flow a\n  match Ping()\n  send Ping()\n\nflow main\n  activate a\n  match E1()\n  send Ping()\n  match Never()\n",
+    "flow main\n  match E1()\n  send Once()\n  match Once()\n  send Done()\n  match Never()\n",
+]
+
+
+def _api_worker(src):
+    import signal
+    from nemoguardrails.colang.v2_x.runtime import runtime as rt, statemachine as smod
+    signal.signal(signal.SIGALRM, _alarm)
+    calls = [0]
+    orig = rt.run_to_completion
+
+    def counted(state, ev):
+        calls[0] += 1
+        return orig(state, ev)
+    rt.run_to_completion = counted
+    returned = True
+    try:
+        signal.setitimer(signal.ITIMER_REAL, 90, 0.5)
+        try:
+            asyncio.run(_drive(src, [{"type": "E1"}]))
+        finally:
+            signal.setitimer(signal.ITIMER_REAL, 0)
+    except StepBudgetExceeded:
+        returned = False
+    except Exception:
+        pass
+    finally:
+        rt.run_to_completion = orig
+    return {"returned": returned, "calls": calls[0], "source": src}
+
+
 def run(ctx):
     nprog = 80 if ctx.quick else 1200
     progs = [("gen:%d" % i, s) for i, s in enumerate(progs2.generated(ctx.seed + 21, nprog))]
@@ -223,11 +265,14 @@ def run(ctx):
     for name, stmt in FAULTS.items():
         for pos in range(0, 6):
             fjobs.append((name, stmt, pos))
+            if name.startswith("match-") or name in ("assign-attr", "send-args"):
+                fjobs.append((name + "+kid", stmt, pos))      # the faulty flow has a child waiting for the same events
     fchunks = [fjobs[i:i + 3] for i in range(0, len(fjobs), 3)]
     bounds, faults = [], []
     with mp.Pool(16) as pool:
         r1 = pool.map_async(_bound_worker, [j for j in jobs if j])
         r2 = pool.map_async(_fault_worker, fchunks)
+        r3 = pool.map_async(_api_worker, SELF_FEEDING)
         for out in r1.get():
             for pid, rec in out:
                 for x in rec:
@@ -235,6 +280,7 @@ def run(ctx):
                     bounds.append(x)
         for out in r2.get():
             faults.extend(out)
+        api = r3.get()
     srcs = dict(progs)
     # ColangSM: all histories (bounded) at specification level - no recursion budget exhausted, internal events per call
     # within the bound - and the micro steps of the real interpreter on every one of those histories
@@ -259,11 +305,17 @@ def run(ctx):
     with open(jf, "w") as f:
         json.dump({"bounds": [{"elements": b["elements"], "instances": b["instances"], "steps": b["steps"]} for b in bounds],
                    "faults": [{"escaped": x["escaped"], "fault_out": x["fault_out"], "abort_out": x["abort_out"], "errors": x["errors"]}
-                              for x in faults]}, f)
+                              for x in faults],
+                   "api": [{"returned": a["returned"], "calls": a["calls"]} for a in api]}, f)
     jr = tlc.run("Isolation.tla", "SPECIFICATION Spec\nINVARIANT Verdict\n", jd, spec_dirs=[SPEC_DIR], env={"TRACE_FILE": jf},
                  workers=1, timeout=3000)
     verd = {p["k"]: p for p in jr.printed if "k" in p}
-    assert len(verd) == len(bounds) + len(faults)
+    assert len(verd) == len(bounds) + len(faults) + len(api)
+    for j, a in enumerate(api, start=len(bounds) + len(faults) + 1):
+        if not verd[j]["ok"]:
+            ctx.violation("api-nontermination", "process_events did not come back for one external event (%s after %d run_to_completion calls); program:\n%s" % (
+                "interrupted by the watchdog" if not a["returned"] else "returned", a["calls"], a["source"]),
+                {"source": a["source"], "calls": a["calls"], "returned": a["returned"], "sig": {"kind": "api-nontermination", "returned": a["returned"]}})
     worst = 0.0
     for i, b in enumerate(bounds, start=1):
         v = verd[i]
@@ -282,11 +334,12 @@ def run(ctx):
         bad = [c for c in ("noescape", "witness", "reported") if not v[c]]
         kind = {"noescape": "exception-escaped", "witness": "unrelated-flow-disturbed", "reported": "no-colang-error"}[bad[0]]
         ctx.violation(kind, "fault '%s' at statement position %d of flow f: %s; witness outputs with fault %s vs with abort %s; ColangError events seen: %d" % (
-            FAULTS[x["fault"]].splitlines()[0], x["pos"], ", ".join(bad), x["fault_out"], x["abort_out"], x["errors"]),
+            FAULTS[x["fault"].replace("+kid", "")].splitlines()[0], x["pos"], ", ".join(bad), x["fault_out"], x["abort_out"], x["errors"]),
             {"fault": x["fault"], "pos": x["pos"], "source": x["source"], "failed": bad,
              "sig": {"fault": x["fault"], "failed": bad[0], "while_matching": x["fault"].startswith("match-")}})
     return {"level": LEVEL, "coverage": {
-        "states": jr.distinct + csm["states"], "transitions": jr.generated + csm["transitions"], "traces_validated_against_impl": len(bounds) + len(faults),
+        "states": jr.distinct + csm["states"], "transitions": jr.generated + csm["transitions"], "traces_validated_against_impl": len(bounds) + len(faults) + len(api),
+        "self_feeding_programs": [{"returned": a["returned"], "run_to_completion_calls": a["calls"]} for a in api],
         "colangsm": {"programs": csm["programs"], "states": csm["states"], "transitions": csm["transitions"], "histories_replayed": csm["compared"], "drift": csm["drift"],
                      "design_properties": ["NoFuelOut", "EventBound"], "violated": sorted(set(v["invariant"] for v in c10viol))},
         "evaluations": len(bounds) + len(faults), "distinct_nontrivial": len(faults) + len(set(b["origin"] for b in bounds)),
@@ -307,5 +360,5 @@ def replay(ctx, rec):
     case = rec["case"]
     print(case.get("source"))
     if "fault" in case:
-        print(_fault_worker([(case["fault"], FAULTS[case["fault"]], case["pos"])]))
+        print(_fault_worker([(case["fault"], FAULTS[case["fault"].replace("+kid", "")], case["pos"])]))
     return False
